@@ -32,6 +32,35 @@ theorem pack_spec (σ : Spec.CInt.Ty) {w : Int} (h : inRange σ w = true) :
   rw [pack_eq, toIntegerType_of_inRange hr, structPack_ok _ hr]
   cases σ <;> rfl
 
+/-- `pack` of ANY integer is the image of the value converted to the type -/
+theorem pack_convert (σ : Spec.CInt.Ty) (v : Int) :
+    pack (M σ) v = .ok (Spec.CInt.bytesLE σ (convert σ v)) := by
+  have h := pack_spec σ (convert_inRange σ v)
+  rw [pack_eq] at h ⊢
+  rw [← toIntegerType_eq_convert, toIntegerType_idem] at h
+  rw [← toIntegerType_eq_convert]; exact h
+
+/-! ### enum and pointer types -/
+
+theorem packAny_basic (τ : Ty) (v : Int) : packAny (.basic τ) v = pack τ v := rfl
+theorem packAny_enum (v : Int) : packAny .enum v = pack .int v := rfl
+theorem packAny_ptr (v : Int) : packAny .ptr v = pack .ulong v := rfl
+
+/-- `CContext.pack` never raises for any type it accepts (integer basic types, enums, pointers) and any integer -/
+theorem packAny_total (t : PackTy) (v : Int) : ∃ bs, packAny t v = .ok bs := by
+  cases t with
+  | basic τ => exact pack_total τ v
+  | enum => exact pack_total .int v
+  | ptr => exact pack_total .ulong v
+
+theorem packAny_enum_spec (v : Int) :
+    packAny .enum v = .ok (Spec.CInt.bytesLE .int (convert .int v)) := by
+  rw [packAny_enum]; exact pack_convert .int v
+
+theorem packAny_ptr_spec (v : Int) :
+    packAny .ptr v = .ok (Spec.CInt.bytesLE .ulong (convert .ulong v)) := by
+  rw [packAny_ptr]; exact pack_convert .ulong v
+
 /-! ### a value implies a type -/
 
 theorem typeOf_of_eval : ∀ (e : Expr) (v : Int), Spec.CInt.eval e = some v → ∃ σ, typeOf e = some σ := by
@@ -140,5 +169,21 @@ theorem arraySize_spec (e : Expr) (v : Int) (h : Spec.CInt.arrayBound e = some v
       simp only [arraySize, he, bind_ok, sizeT]
       exact this
     · cases h
+
+theorem initializerEnum_spec (e : Expr) (bs : List Nat) (h : Spec.CInt.initBytesEnum e = some bs) :
+    initializerEnum (render e) = .ok bs := by
+  simp only [Spec.CInt.initBytesEnum, Option.map_eq_some_iff] at h
+  obtain ⟨v, hv, rfl⟩ := h
+  obtain ⟨σ, t, _, he, _, hev, _⟩ := elab_eval e v hv
+  simp only [initializerEnum, he, bind_ok, hev]
+  exact packAny_enum_spec v
+
+theorem initializerPtr_spec (e : Expr) (bs : List Nat) (h : Spec.CInt.initBytesPtr e = some bs) :
+    initializerPtr (render e) = .ok bs := by
+  simp only [Spec.CInt.initBytesPtr, Option.map_eq_some_iff] at h
+  obtain ⟨v, hv, rfl⟩ := h
+  obtain ⟨σ, t, _, he, _, hev, _⟩ := elab_eval e v hv
+  simp only [initializerPtr, he, bind_ok, hev]
+  exact packAny_ptr_spec v
 
 end Proofs.CEval
